@@ -53,4 +53,18 @@ func init() {
 		Assumptions: []string{"sync.Pool hands out a warm buffer (capacity 512)", "kernel LPM lookup = longest-prefix rule over key bytes"},
 		QuickBudget: 8 * time.Minute, ThoroughBudget: 40 * time.Minute,
 	}
+	checks["C18"] = &CheckDef{
+		Pkgs:    []string{"./control"},
+		Harness: []string{"control:Verif_C18_table", "control:Verif_C18_strings"},
+		MaxIter: 400,
+		Level:   "other",
+		LevelText: "The real ControlPlane.ChooseDialTarget is executed symbolically for every combination of dial mode, outbound kind, presence of a sniffed name and what the DNS controller / real-domain cache know (symbolic booleans), and for every sniffed string up to the bound over the alphabet {1 . : [ ] a} with symbolic bytes through the real isIPLikeDomain, netip.ParseAddr, net.SplitHostPort and net.JoinHostPort; the solver discharges the decision-table and well-formedness obligations on every path.",
+		LevelNote: "Trusted: go/ssa, executor, z3. Environment replaced by symbolic stubs: DnsController.HasDnsKnowledge/cacheKey, lookupRealDomainCache, triggerRealDomainProbe (counted). Destination fixed to 10.1.2.3 with ports {1,443,65535}; strings up to 4 (quick) / 6 (thorough) bytes. Whether domain mode re-routes is not constrained (the property does not state it).",
+		Technique: techniqueText,
+		Explanation: "Bounded symbolic execution of ChooseDialTarget and the string normalisation it performs.",
+		Bounds:  map[string]string{"quick": "full decision table (4 modes x 7 outbounds x 4 names x 8 knowledge states x 3 ports); sniffed strings of <=4 symbolic bytes over a 6-letter alphabet, 3 name-using modes", "thorough": "same table; strings of <=6 symbolic bytes"},
+		Outside: []string{"strings longer than the bound or using other characters", "the re-route itself (Route is C01)"},
+		Assumptions: []string{"HasDnsKnowledge / real-domain cache answers are arbitrary booleans", "logger is a no-op"},
+		QuickBudget: 8 * time.Minute, ThoroughBudget: 40 * time.Minute,
+	}
 }
